@@ -59,14 +59,19 @@ pub fn read(a: &[u8]) -> Result<(Vec<Entry>, usize), String> {
 }
 
 pub fn header_for(name: &str, size: usize) -> Vec<u8> {
+	header_for_bytes(name.as_bytes(), size, b'0')
+}
+
+/// Header with an arbitrary (possibly non-UTF-8) name and type flag ('0' file, '5' directory).
+pub fn header_for_bytes(name: &[u8], size: usize, typeflag: u8) -> Vec<u8> {
 	let mut h = vec![0u8; 512];
-	h[..name.len()].copy_from_slice(name.as_bytes());
+	h[..name.len()].copy_from_slice(name);
 	h[100..108].copy_from_slice(b"0000644\0");
 	h[108..116].copy_from_slice(b"0000000\0");
 	h[116..124].copy_from_slice(b"0000000\0");
 	h[124..136].copy_from_slice(format!("{:011o}\0", size).as_bytes());
 	h[136..148].copy_from_slice(b"00000000000\0");
-	h[156] = b'0';
+	h[156] = typeflag;
 	h[257..263].copy_from_slice(b"ustar\0");
 	h[263..265].copy_from_slice(b"00");
 	let c = checksum(&h);
